@@ -107,8 +107,8 @@ func genMessage(kind string, r *rand.Rand, pver uint32) wire.Message {
 			na := rnetaddr(r, true)
 			_ = m.AddAddress(&na)
 		}
-		if r.Intn(8) == 0 {
-			for len(m.AddrList) < wire.MaxAddrPerMsg {
+		if r.Intn(2) == 0 { // lists at and just below the limit of 1000 entries
+			for len(m.AddrList) < wire.MaxAddrPerMsg-r.Intn(3) {
 				na := rnetaddr(r, true)
 				_ = m.AddAddress(&na)
 			}
@@ -260,6 +260,11 @@ func opWire() error {
 		f := row.F
 		for k := 0; k < inst; k++ {
 			pver := pvers[rng.Intn(len(pvers))]
+			if f.Kind == "addr" && rng.Intn(5) < 3 {
+				// the address format (and with it the size limit of an addr message) changes at NetAddressTimeVersion
+				// (below it addresses carry no timestamp, so only versions from it upwards round-trip a generated message)
+				pver = []uint32{wire.NetAddressTimeVersion, wire.NetAddressTimeVersion + 1}[rng.Intn(2)]
+			}
 			msg := genMessage(f.Kind, rng, pver)
 			var pbuf bytes.Buffer
 			if err := msg.BsvEncode(&pbuf, pver, wire.BaseEncoding); err != nil {
@@ -353,11 +358,22 @@ func opWire() error {
 			case "declaredLonger":
 				declared += 1 + uint32(rng.Intn(100))
 			case "declaredShorter":
+				if len(payload) == 0 {
+					continue // nothing to cut (e.g. a ping of a protocol version without a nonce)
+				}
 				declared -= 1 + uint32(rng.Intn(len(payload)))
 			case "overType":
 				declared = msg.MaxPayloadLength(pver) + 1 + uint32(rng.Intn(1000))
+				if rng.Intn(2) == 0 {
+					// far over the type's limit but under the overall one: a frame that is REJECTED must not cost its announced length
+					declared = msg.MaxPayloadLength(pver) + 16<<20 + uint32(rng.Intn(64<<20))
+				}
 			case "overGlobal":
 				declared = 0xffffffff - uint32(rng.Intn(1000))
+			}
+			if (f.Magic != "ok" || f.Cmd != "known") && f.Len == "exact" && rng.Intn(3) == 0 {
+				// a frame rejected for its magic or command announces a large payload it does not carry
+				declared = 16<<20 + uint32(rng.Intn(64<<20))
 			}
 			binary.LittleEndian.PutUint32(hdr[16:], declared)
 			sum := dsha(payload)
@@ -415,12 +431,14 @@ func opWire() error {
 				fail(row.Expect, fmt.Sprintf("%s (%v)", verdict, a.err))
 			}
 			// allocation: never (much) more than the frame itself plus the per-type structures; 48 MB is far above any legitimate need here
-			if a.alloc > 2*uint64(declared)+8<<20 && !(f.Len == "overType" || f.Len == "overGlobal") || (f.Len == "overType" || f.Len == "overGlobal") && a.alloc > 8<<20 {
+			rejectedAtHeader := f.Len == "overType" || f.Len == "overGlobal" || f.Magic != "ok" || f.Cmd != "known"
+			if !rejectedAtHeader && a.alloc > 2*uint64(declared)+8<<20 || rejectedAtHeader && a.alloc > 8<<20 {
 				fail("allocation bounded by the declared payload length", fmt.Sprintf("%d bytes allocated for a %d byte frame declaring %d", a.alloc, len(frame), declared))
 			}
 			if row.Expect == "accept" && verdict == "accept" {
 				// decode(encode(m)) = m and encode(decode(bytes)) = bytes, through WriteMessage as well
-				if f.Kind != "authch" && !eqVal(reflect.ValueOf(a.msg), reflect.ValueOf(msg)) {
+				// (protoconf and authch are decoded without interpreting the payload - the property's round trip is about the other kinds)
+				if f.Kind != "authch" && f.Kind != "protoconf" && !eqVal(reflect.ValueOf(a.msg), reflect.ValueOf(msg)) {
 					fail("decoded message equals the encoded one", fmt.Sprintf("sent %+v got %+v", msg, a.msg))
 				}
 				if f.Kind != "authch" && f.Kind != "protoconf" {
